@@ -184,6 +184,50 @@ def run_cfg(ctx, p, cfg):
         r.require(not stuck, "every-piece-consumes-input", fn=f, detail="every path to a returned piece passes a step of the parser's cursor",
                   fail_detail="a piece is returned (bb%s) on a path on which the parser's cursor has not moved: the next call returns the same piece, and collecting the parser never ends" % sorted(stuck))
 
+    with ctx.rule("P6", "the parser's own errors are not swallowed", cfg) as r:
+        # "absurd widths ... are surfaced as a visible {ERROR: ..} marker": an Err produced by one step of the parser reaches the
+        # piece that renders it.  Every call of a parser step that returns Result<_, String> is consumed by `?` or by a match
+        # on it - never by unwrap_or / unwrap_or_default / ok(), which turn the error into an ordinary value.
+        n = 0
+        for path, f in sorted(p.fns.items()):
+            if "encode::pattern::parser::Parser" not in path or f.kind == "Closure" or "Derive" in (f.d.get("exp") or ""):
+                continue
+            for c in f.calls():
+                if c.callee not in p.fns or "encode::pattern::parser::" not in c.callee or not c.t.get("dest_ty", "").startswith("core::result::Result<"):
+                    continue
+                n += 1
+                def looked(blk_id, callee, depth=0):
+                    """the Result produced by the call in blk_id is matched, `?`-ed, or handed on through an error-preserving combinator whose result is"""
+                    for blk in f.blocks:
+                        if blk["id"] not in f.reachable_blocks() or blk["term"]["k"] != "switch":
+                            continue
+                        d = strip(SwitchInfo(f, blk["id"]).discr)
+                        if d[0] == "discr":
+                            inner = strip(d[1])
+                            if inner[0] == "call" and inner[1].endswith("Try::branch") and inner[2]:
+                                inner = strip(inner[2][0])
+                            if inner[0] == "call" and len(inner) > 3 and inner[3] == blk_id and inner[1] == callee:
+                                return True
+                    if depth < 3:
+                        for u in f.calls():
+                            if (u.callee or "").rsplit("::", 1)[-1] in ("and_then", "map", "map_err") and "Result" in (u.callee or "") and u.args:
+                                a0 = strip(u.arg(0))
+                                if a0[0] == "call" and len(a0) > 3 and a0[3] == blk_id and a0[1] == callee and looked(u.block, u.callee, depth + 1):
+                                    return True
+                    return False
+                looked_at = looked(c.block, c.callee)
+                swallowed = []
+                for u in f.calls():
+                    nm = (u.callee or "").rsplit("::", 1)[-1]
+                    if nm in ("unwrap_or", "unwrap_or_default", "unwrap_or_else", "ok", "is_ok", "is_err", "unwrap", "expect") and "Result" in (u.callee or "") and u.args:
+                        a0 = strip(u.arg(0))
+                        if a0[0] == "call" and len(a0) > 3 and a0[3] == c.block and a0[1] == c.callee:
+                            swallowed.append(nm)
+                r.require(looked_at and not swallowed, "error-propagated:%s/%s" % (path.rsplit("::", 1)[-1], common.role(c)), fn=f, site=c.at,
+                          detail="the Result of %s is matched or propagated with `?`" % c.callee.rsplit("::", 1)[-1],
+                          fail_detail="the Result of %s is consumed by %s: its error (e.g. a width that is too large) never reaches the {ERROR: ..} piece" % (c.callee.rsplit("::", 1)[-1], swallowed or "nothing that looks at it"))
+        r.floor("parser-steps-returning-a-Result", n, 5)
+
     with ctx.rule("P1", "panic inventory", cfg) as r:
         cone = cone_of(p)
         if common.established(c10.rule_char_counting, p):
